@@ -204,8 +204,11 @@ package internal
 //@   requires tiInv(t)
 //@   ensures [idle] !old(armed(&t.slot, PollerReadEvent)) ==> result == nil && t.slot.Events == old(t.slot.Events) && t.poller.pending == old(t.poller.pending)
 //@   ensures [disarmed] result == nil ==> !armed(&t.slot, PollerReadEvent)
-//@   ensures [failed] result != nil ==> t.slot.Events == old(t.slot.Events) && t.poller.pending == old(t.poller.pending)
-//@   ensures [count] result == nil && old(armed(&t.slot, PollerReadEvent)) ==> t.poller.pending < old(t.poller.pending)
+//@   ensures [failed] result != nil ==> (t.slot.Events == old(t.slot.Events) && t.poller.pending == old(t.poller.pending)) ||
+//@           (t.slot.Events == old(t.slot.Events) &^ (PollerReadEvent | PollerWriteEvent) &&
+//@            t.poller.pending == old(t.poller.pending) - 1 - (old(armed(&t.slot, PollerWriteEvent)) ? 1 : 0))
+//@   ensures [all] result == nil && old(armed(&t.slot, PollerReadEvent)) ==> t.slot.Events == old(t.slot.Events) &^ (PollerReadEvent | PollerWriteEvent)
+//@   ensures [count] result == nil && old(armed(&t.slot, PollerReadEvent)) ==> t.poller.pending == old(t.poller.pending) - 1 - (old(armed(&t.slot, PollerWriteEvent)) ? 1 : 0)
 //@   // disarming stops the kernel timer first: expiration zero, interval zero
 //@   assert call TimerfdSettime: arg0 == t.fd && arg2.Value.Sec == 0 && arg2.Value.Nsec == 0 && arg2.Interval.Sec == 0 && arg2.Interval.Nsec == 0
 
@@ -216,6 +219,7 @@ package internal
 //@   assert call TimerfdSettime#2: arg0 == t.fd && arg2.Value.Sec * 1000000000 + arg2.Value.Nsec == int64(dur) &&
 //@          arg2.Interval.Sec == 0 && arg2.Interval.Nsec == 0
 //@   ensures [armed] result == nil ==> armed(&t.slot, PollerReadEvent) && t.slot.Handlers[0] != nil
+//@   ensures [write-side] !old(armed(&t.slot, PollerReadEvent)) ==> armed(&t.slot, PollerWriteEvent) == old(armed(&t.slot, PollerWriteEvent))
 //@   ensures [count] result == nil && !old(armed(&t.slot, PollerReadEvent)) ==> t.poller.pending == old(t.poller.pending) + 1
 //@   ensures [failed] result != nil && !old(armed(&t.slot, PollerReadEvent)) ==> !armed(&t.slot, PollerReadEvent) && t.poller.pending == old(t.poller.pending)
 
@@ -224,5 +228,5 @@ package internal
 //@   requires tiInv(t)
 //@   assert call syscall.Close: arg0 == t.fd
 //@   // whatever the kernel answers, a closed timer is not armed and not counted as pending
-//@   ensures [disarmed] !armed(&t.slot, PollerReadEvent)
+//@   ensures [disarmed] !armed(&t.slot, PollerReadEvent) && !armed(&t.slot, PollerWriteEvent)
 //@   ensures [count] t.poller.pending == old(t.poller.pending) - (old(armed(&t.slot, PollerReadEvent)) ? 1 : 0) - (old(armed(&t.slot, PollerWriteEvent)) ? 1 : 0)
